@@ -78,17 +78,12 @@ Fixpoint seq_items (o : options) (depth : Z) (arg : ty) (whole : pyval) (i : nat
       | EnterFailed e => lift (Raise e)
       | Entered (Ok r) => seq_items o depth arg whole (S i) rest (acc ++ [r])
       | Entered (Raise e) =>
-          (* error = ParseError(item=i, value=value[i], ...): subscripting a set raises TypeError *)
-          match whole with
-          | PSet _ | PFrozen _ => lift raise_type
-          | _ =>
-            match o_invalid_items o with
-            | Exclude => seq_items o depth arg whole (S i) rest acc
-            | Preserve => seq_items o depth arg whole (S i) rest (acc ++ [item])
-            | Throw =>
-                do _ <- handle_error o (parse_err_at KType (PInt (Z.of_nat i))) false;
-                seq_items o depth arg whole (S i) rest acc
-            end
+          match o_invalid_items o with
+          | Exclude => seq_items o depth arg whole (S i) rest acc
+          | Preserve => seq_items o depth arg whole (S i) rest (acc ++ [item])
+          | Throw =>
+              do _ <- handle_error o (parse_err_at KType (PInt (Z.of_nat i))) false;
+              seq_items o depth arg whole (S i) rest acc
           end
       | Entered Diverge => lift Diverge
       | Entered OutOfFuel => lift OutOfFuel
@@ -102,15 +97,16 @@ Fixpoint tuple_items (o : options) (depth : Z) (vals : list pyval) (i : nat)
   match args with
   | [] => ret acc
   | arg :: rest =>
-      do _ <- (if (List.length vals <=? i)%nat
-               then handle_error o (parse_err_at KAbsence (PInt (Z.of_nat i))) false else ret tt);
+      if (List.length vals <=? i)%nat then
+        (* the prefix item is absent: record it and go on with the next position *)
+        do _ <- handle_error o (parse_err_at KAbsence (PInt (Z.of_nat i))) false;
+        tuple_items o depth vals (S i) rest acc
+      else
       match depth_check o (new_depth depth (route_idx i)) with
       | Raise e => lift (Raise e)
       | _ =>
         match nth_error vals i with
-        | None => lift (Raise (other_err XIndexError))
-            (* value[i] past the end raises inside the try, and again inside the handler
-               (value=value[i]): the second IndexError escapes *)
+        | None => lift (Raise (other_err XIndexError))      (* unreachable: i < len(value) *)
         | Some item =>
             match enter_tr o depth (route_idx i) arg item with
             | EnterFailed e => lift (Raise e)
@@ -330,32 +326,37 @@ Fixpoint or_stage (o : options) (depth : Z) (args : list ty) (v : pyval) : M (op
       end
   end.
 
-(* the ^ loop (435-450): handle_error runs inside the try *)
-Fixpoint xor_loop (o : options) (depth : Z) (args : list ty) (v : pyval) (xor : bool) : M (pyval * bool) :=
+(* the ^ loop: every condition is tried on the given input v; `res` is the output of the first
+   accepting condition; handle_error runs inside the try *)
+Fixpoint xor_loop (o : options) (depth : Z) (args : list ty) (v : pyval) (res : pyval) (xor : bool)
+  : M (pyval * bool) :=
   match args with
-  | [] => ret (v, xor)
+  | [] => ret (res, xor)
   | con :: rest =>
       match enter_tr o depth true con v with
       | EnterFailed e => lift (Raise e)
       | Entered (Ok r) =>
-          if negb xor then xor_loop o depth rest r true
+          if negb xor then xor_loop o depth rest v r true
           else
             (* second acceptance: handle_error(OneOfViolatedError) inside the try *)
             fun s =>
               let '(s1, hr) := handle_error o (parse_err KOneOf) false s in
               match hr with
-              | Ok _ => (s1, Ok (r, false))                        (* collected: xor = None; break *)
+              | Ok _ => (s1, Ok (res, false))                      (* collected: xor = None; break *)
               | Raise e => let '(s2, _) := collect_tmp_error e s1 in (* raised: caught by the except *)
-                           xor_loop o depth rest r true s2
+                           xor_loop o depth rest v res true s2
               | Diverge => (s1, Diverge) | OutOfFuel => (s1, OutOfFuel) | Unmodelled => (s1, Unmodelled)
               end
-      | Entered (Raise e) => do _ <- collect_tmp_error e; xor_loop o depth rest v xor
+      | Entered (Raise e) => do _ <- collect_tmp_error e; xor_loop o depth rest v res xor
       | Entered Diverge => lift Diverge
       | Entered OutOfFuel => lift OutOfFuel
       | Entered Unmodelled => lift Unmodelled
       end
   end.
 
+(* the & loop (365-375): a failing condition is recorded (wrapped in ParseError unless it is one)
+   and the loop stops; the common raise_error at the end of logical_parse decides *)
+Definition as_parse_error (e : exn) : exn := if is_parse_err e then e else parse_err KWrapped.
 Fixpoint and_loop (o : options) (depth : Z) (args : list ty) (v : pyval) : M pyval :=
   match args with
   | [] => ret v
@@ -365,8 +366,7 @@ Fixpoint and_loop (o : options) (depth : Z) (args : list ty) (v : pyval) : M pyv
         match r with
         | Ok v' => and_loop o depth rest v' s1
         | Raise e =>
-            (* context.handle_error(e); break; then `return value` without raise_error *)
-            let '(s2, hr) := handle_error o e false s1 in
+            let '(s2, hr) := handle_error o (as_parse_error e) false s1 in
             match hr with
             | Ok _ => (s2, Ok v)
             | Raise e' => (s2, Raise e')
@@ -379,7 +379,7 @@ Fixpoint and_loop (o : options) (depth : Z) (args : list ty) (v : pyval) : M pyv
 (* LogicalType.logical_parse (359-471) *)
 Definition logical_parse (o : options) (depth : Z) (op : comb) (args : list ty) (v : pyval) : M pyval :=
   match op with
-  | CAnd => and_loop o depth args v
+  | CAnd => do w <- and_loop o depth args v; do _ <- raise_error; ret w
   | COr =>
       if existsb (fun con => exact_type con v) args then ret v
       else
@@ -405,11 +405,11 @@ Definition logical_parse (o : options) (depth : Z) (op : comb) (args : list ty) 
   | CXor =>
       if existsb (fun con => exact_type con v) args then ret v
       else
-        do res <- xor_loop o depth args v false;
+        do res <- xor_loop o depth args v v false;
         let '(v', xor) := res in
         do _ <- (if xor then clear_tmp_error else ret tt);
         do _ <- raise_error;
-        ret v'
+        ret (if xor then v' else v)
   | CNot =>
       match args with
       | con :: _ =>
